@@ -595,6 +595,8 @@ def run(ctx):
     check_signs(ctx, db)
     check_length_fields(ctx, db)
     check_affine_algebra(ctx, db)
+    from . import C08   # RobustPath keeps its transform as a matrix: the matrix methods are C08's obligations, shared
+    C08.check_trafo_algebra(ctx, db)
     # Repetition::transform (C10.5) — same obligations as C11
     C11.check_transform(ctx, db)
     C11.check_transform_algebra(ctx, db)
